@@ -2,7 +2,7 @@
 
 from __future__ import annotations
 
-from .. import gen, probe, spec
+from .. import smallworld, gen, probe, spec
 from ..probe import violation
 from .common import scale_leg, call, grow_while_asking
 
@@ -42,6 +42,20 @@ def setup(ctx):
 
 def run_case(ctx, g, rng):
     api = ctx.api
+    if smallworld.active(ctx, g):
+        for c_, recs_, d_ in smallworld.chunk(ctx, g):
+            for q in smallworld.queries(ctx.tier, d_):
+                call(c_.expand, q)
+                call(c_.expand_all, q)
+                call(c_.is_curie, q)
+                call(c_.parse_curie, q)
+                i_ = q.find(d_)
+                if i_ >= 0:
+                    p_, x_ = q[:i_], q[i_ + len(d_):]
+                    call(c_.expand_pair, p_, x_)
+                    call(c_.expand_pair_all, p_, x_)
+                    call(c_.expand_reference, api.ReferenceTuple(p_, x_))
+        probe.note_key(f"curie-small-world:chunk{g % 40}", True)
     scale_leg(ctx, rng, rng.choice([":", ":", "/", "::"]), modes=False, g=g)
     S = probe.S
     if g % 6 == 5:
@@ -135,3 +149,7 @@ def run_case(ctx, g, rng):
         q = prefixes[0] + d + "x" + d + "y"
         probe.sample({"records": [spec.rec_dict(r) for r in recs], "delimiter": d, "built": how, "curie": q,
                       "expand": call(c.expand, q), "expand_all": call(c.expand_all, q)})
+
+
+def EXHAUSTIVE(tier, counters):
+    return smallworld.exhaustive(tier, counters)
